@@ -59,3 +59,20 @@ Theorem C09_file_mode_hit_starts_nothing :
     fpc s' = GTd /\ fps s' = fps s /\ fsy s' = fsy s /\ assoc_key (mem s') k = Some i.
 Proof. exact no_rerun. Qed.
 Print Assumptions C09_file_mode_hit_starts_nothing.
+
+(* ---- the interactive cache at point level (Model/CacheExec.v: the cache steps of a worker thread
+   laid over Model/Exec.v; tied to the code by full lockstep incl. hits, identical calls in flight,
+   sessions and killed workers).  Proofs/CacheSafe.v.  Every program (cancellations and failing
+   calls included), worker count, schedule, kill of a worker thread and initial directory of
+   result files with prefixes of [function; input_args; input_kwargs; output]. ---- *)
+From EL Require Model.Exec Model.FileExec Model.FileSpec Model.CacheExec Model.CacheSpec Proofs.CacheSafe.
+
+(* the interactive cache never deletes or changes an entry that holds its output: no hypothesis on
+   the program *)
+Theorem C09_interactive_cache_never_alters_completed_entry :
+  forall c n prog fs0 s s',
+    CacheSpec.dir_ok fs0 = true -> CacheSafe.fs_wf fs0 ->
+    CacheSafe.creach c (CacheExec.cinit n prog fs0) s -> CacheSafe.ctrans c s s' ->
+    FileSpec.outs_kept (CacheExec.cfs s) (CacheExec.cfs s') = true.
+Proof. exact CacheSafe.completed_never_altered. Qed.
+Print Assumptions C09_interactive_cache_never_alters_completed_entry.
